@@ -290,10 +290,23 @@ inductive Gate where
   | panic                  -- nil dereference of r.TLS on the remote endpoint
 deriving DecidableEq, Repr
 
+/-- `r.Header.Get("Upgrade")`: the first value -/
 def firstUpgrade (r : Req) : Bytes :=
   match r.upgrade with
   | [] => []
   | v :: _ => v
+
+def lowerByte (b : UInt8) : UInt8 := if 65 ≤ b ∧ b ≤ 90 then b + 32 else b
+/-- `strings.ToLower` on an ASCII string (the protocol only carries ASCII Upgrade values) -/
+def asciiLower (s : Bytes) : Bytes := s.map lowerByte
+
+/-- the websocket test of `serveHTTP` as it is now (since /repo cc84cea):
+    `slices.ContainsFunc(r.Header.Values("Upgrade"), v ↦ strings.Contains(strings.ToLower(v), "websocket"))` -/
+def wsCheck (r : Req) : Bool := r.upgrade.any (fun v => containsSub (asciiLower v) sWebsocket)
+
+/-- the test as it was before cc84cea: `strings.Contains(r.Header.Get("Upgrade"), "websocket")` —
+    first value only, case-sensitive.  Kept for `websocket_old_code_fails`. -/
+def wsCheckOld (r : Req) : Bool := containsSub (firstUpgrade r) sWebsocket
 
 def checkHost (h : Handler) (r : Req) : Bool := h.allowed.any (fun a => r.host == a.host)
 
@@ -319,8 +332,8 @@ def aclGate (h : Handler) (r : Req) : Option Gate :=
       | some .pathDenied => some (.refuse .aclPath)
       | none => some (.refuse .aclIdentity)
 
-def localGate (h : Handler) (r : Req) : Gate :=
-  if containsSub (firstUpgrade r) sWebsocket then .refuse .websocket
+def localGateWith (ws : Req → Bool) (h : Handler) (r : Req) : Gate :=
+  if ws r then .refuse .websocket
   else if h.enforceHost && !checkHost h r then .refuse .host
   else if h.enforceOrigin then
     (if !(getOrigin r).ok then .refuse .originMissing
@@ -328,10 +341,29 @@ def localGate (h : Handler) (r : Req) : Gate :=
      else .pass (if r.method = sOPTIONS then 2 else 1))
   else .pass 0
 
+def localGate (h : Handler) (r : Req) : Gate := localGateWith wsCheck h r
+
 def gate (h : Handler) (r : Req) : Gate :=
   match aclGate h r with
   | some g => g
   | none => localGate h r
+
+/-- the gate with the websocket test of the old code (before cc84cea) -/
+def gateOld (h : Handler) (r : Req) : Gate :=
+  match aclGate h r with
+  | some g => g
+  | none => localGateWith wsCheckOld h r
+
+/-- which top-level statement of `serveHTTP` answers the request: the name of the refusing check,
+    or "mux" when all pass (names as in the regenerated `Gen.adminGateSequence`) -/
+def answeredBy (h : Handler) (r : Req) : String :=
+  match gate h r with
+  | .refuse .aclMethod => "acl" | .refuse .aclPath => "acl" | .refuse .aclIdentity => "acl"
+  | .refuse .websocket => "websocket"
+  | .refuse .host => "host"
+  | .refuse .originMissing => "origin" | .refuse .originDenied => "origin"
+  | .pass _ => "mux"
+  | .panic => "panic"
 
 -- ---------------------------------------------------------------- http.ServeMux (restricted pattern forms)
 inductive Route where
